@@ -907,8 +907,9 @@ class Host(utils.EventEmitter):
 
         bytes_remaining = len(sdu)
         offset = 0
-        while bytes_remaining:
-            is_first_fragment = offset == 0
+        is_first_fragment = True
+        # (an empty SDU is still sent, as one complete-SDU packet)
+        while bytes_remaining or is_first_fragment:
             header_length = 4 if is_first_fragment else 0
             assert iso_link.packet_queue.max_packet_size > header_length
             fragment_length = min(
@@ -940,6 +941,7 @@ class Host(utils.EventEmitter):
 
             offset += fragment_length
             bytes_remaining -= fragment_length
+            is_first_fragment = False
 
         iso_link.packet_sequence_number = (iso_link.packet_sequence_number + 1) & 0xFFFF
 
